@@ -327,12 +327,12 @@ def settings_match(settings, want):
     return None
 
 
-def eval_vtt(desc, fit):
+def eval_vtt(desc, fit, relativize=True):
     from pycaption import WebVTTWriter
 
     klass = desc.get("klass", "vtt")
     try:
-        doc = shared.obj(WebVTTWriter, fit_to_screen=fit).write(build(desc))
+        doc = (shared.obj(WebVTTWriter, fit_to_screen=fit) if relativize else shared.obj(WebVTTWriter, fit_to_screen=fit, relativize=False)).write(build(desc))
         cues = parsers.parse_vtt(doc)
     except Exception as e:  # noqa
         return [(f"C12/webvtt/{klass}/raises:{type(e).__name__}", {"err": str(e)[:300]})], "raises"
@@ -598,6 +598,9 @@ def run_shard(d):
             for fit in (False, True):
                 run(eval_vtt, {"lang": None, "share": True, "captions": [{"layout": a, "parts": [("t0", None, "plain")]}, {"layout": a, "parts": [("t1", None, "plain")]}, {"layout": None, "parts": [("t2", a, "span")]}], "klass": "vtt-shared-layout-object"}, fit)
                 run(eval_dfxp, {"lang": None, "share": True, "captions": [{"layout": a, "parts": [("t0", None, "plain")]}, {"layout": a, "parts": [("t1", None, "plain")]}, {"layout": None, "parts": [("t2", a, "span")]}], "klass": "shared-layout-object"}, fit)
+                # percentage layouts need no relativization: the same cues with relativization switched off
+                run(eval_vtt, {"lang": None, "share": True, "captions": [{"layout": a, "parts": [("t0", None, "plain")]}, {"layout": a, "parts": [("t1", None, "plain")]}, {"layout": None, "parts": [("t2", a, "span")]}], "klass": "vtt-shared-layout-object"}, fit, (), False)
+                run(eval_vtt, dict(single_level_desc(a, "lang"), klass="vtt-lang-level"), fit, (), False)
         for a_ in RAW_SETTINGS[:3]:
             for b_ in RAW_SETTINGS[:3] + [""]:
                 for combo in (("EMPTY:" + a_, b_), (b_, "EMPTY:" + a_, ""), ("", "EMPTY:" + a_, b_)):
